@@ -391,9 +391,10 @@ SameRequest(level, req, m) ==
 
 \* The verdict on one execution: `raised` = the call failed, `wire` = every symbol the client wrote.
 \* hard = the property clause that fails ("ok" when none); exact = the stream is the canonical one.
-Judge(level, req, raised, wire) ==
+\* (JudgeOn takes the parse of `wire` and the canonical serialisation as arguments, so that a caller that already has
+\* them - the model checker evaluating several invariants on one state - does not compute them again)
+JudgeOn(level, req, raised, wire, ms, canon) ==
     LET e == Expect(level, req)
-        ms == Parse(wire)
         hard ==
           IF wire = <<>>
           THEN (IF ~raised THEN "NothingWrittenNoError"
@@ -404,27 +405,29 @@ Judge(level, req, raised, wire) ==
           ELSE IF SameRequest(level, req, ms[1]) # "ok" THEN SameRequest(level, req, ms[1])
           ELSE IF e = "MustRefuse" THEN "UnrepresentableRequestWritten"
           ELSE "ok"
-    IN [hard |-> hard, exact |-> (wire = <<>> \/ wire = Serialize(level, req))]
+    IN [hard |-> hard, exact |-> (wire = <<>> \/ wire = canon)]
+Judge(level, req, raised, wire) == JudgeOn(level, req, raised, wire, Parse(wire), Serialize(level, req))
 
 \* ---- invariants over a request `r` (the model checker quantifies r over the hostile domain)
 
 \* Accept(req) => Parse(Serialize(req)) = <<req'>> : exactly one message, req' = req up to the normalisation
-ParseSerializeIdentity(r) ==
+\* (the ...On forms take s = Serialize(r.level, r) and ms = Parse(s) from the caller)
+ParseSerializeIdentityOn(r, s, ms) ==
     Accept(r.level, r) =>
-        LET s == Serialize(r.level, r)
-            ms == Parse(s) IN
         /\ Len(ms) = 1 /\ ms[1].ok
         /\ ms[1].method = NormMethod(r.level, r.method)
         /\ ms[1].target = NormTarget(r.level, r)
         /\ ms[1].lines = HeadLines(r)
         /\ ms[1].payload = Payload(r)
         /\ ms[1].next = Len(s) + 1
+ParseSerializeIdentity(r) == LET s == Serialize(r.level, r) IN ParseSerializeIdentityOn(r, s, Parse(s))
 
 \* the syntactic refusal rules are exactly the requests whose verbatim serialisation is NOT the request
-RefuseIffUnrepresentable(r) ==
-    LET j == Judge(r.level, r, FALSE, Serialize(r.level, r)) IN
+RefuseIffUnrepresentableOn(r, s, ms) ==
+    LET j == JudgeOn(r.level, r, FALSE, s, ms, s) IN
     /\ MustRefuse(r.level, r) => j.hard # "ok"
     /\ ~MustRefuse(r.level, r) => j.hard = "ok" /\ j.exact
+RefuseIffUnrepresentable(r) == LET s == Serialize(r.level, r) IN RefuseIffUnrepresentableOn(r, s, Parse(s))
 
 \* refusing is judged correctly: allowed unless the request is clean
 RefusalJudged(r) ==
@@ -436,16 +439,30 @@ TargetIsSafe(r) == r.level \in {"pool", "mgr"} =>
     /\ NormTarget(r.level, r)[1] = "/"
 
 \* automatic lines appear exactly when the caller neither supplied nor suppressed them
-AutoOnlyWhenAbsent(r) ==
+AutoOnlyWhenAbsentOn(r, ms) ==
     ~MustRefuse(r.level, r) =>
-        LET ls == Parse(Serialize(r.level, r))[1].lines
+        LET ls == ms[1].lines
             n(key) == Cardinality({i \in 1..Len(ls) : LowerSeq(NameOf(ls[i])) = key})
             sup(key) == Cardinality({i \in 1..Len(r.hdrs) : LowerSeq(r.hdrs[i].n) = key /\ ~r.hdrs[i].skip})
         IN \A key \in Skippable : n(key) = (IF Mentions(r, key) THEN sup(key) ELSE 1)
+AutoOnlyWhenAbsent(r) == AutoOnlyWhenAbsentOn(r, Parse(Serialize(r.level, r)))
 
 \* percent-encoding is idempotent (the manager encodes, then the pool encodes again)
 EncodeIdempotent(r) == r.level \in {"pool", "mgr"} =>
     EncodeTarget(NormTarget(r.level, r), FALSE) = NormTarget(r.level, r)
+
+\* all of the above invariants on one request, sharing one Serialize and one Parse: the name of the first clause that fails, or "none"
+FirstFailing(r) ==
+    LET s == Serialize(r.level, r)
+        ms == Parse(s) IN
+    IF ~ParseSerializeIdentityOn(r, s, ms) THEN "ParseSerializeIdentity"
+    ELSE IF ~RefuseIffUnrepresentableOn(r, s, ms) THEN "RefuseIffUnrepresentable"
+    ELSE IF ~RefusalJudged(r) THEN "RefusalJudged"
+    ELSE IF ~TargetIsSafe(r) THEN "TargetIsSafe"
+    ELSE IF ~AutoOnlyWhenAbsentOn(r, ms) THEN "AutoOnlyWhenAbsent"
+    ELSE IF ~EncodeIdempotent(r) THEN "EncodeIdempotent"
+    ELSE "none"
+
 
 -----------------------------------------------------------------------------
 (* 8  HTTP/2 header validity (HTTP2Connection.putheader)                       *)
